@@ -479,7 +479,7 @@ class ExprMixin:
             if self.branch(z3.Or(i >= n, i < -n)):
                 self.raise_new('IndexError', smt.mk_str('index out of range'))
             j = smt.simp(z3.If(i < 0, i + n, i))
-            v = smt.simp(s[j])
+            v = self.nth(s, j)
             if not z3.is_int_value(j) or not z3.is_int_value(smt.simp(n)):
                 self.note_index(s, j)
             self.bound_ref(v)
